@@ -76,9 +76,10 @@ def lammps_frame_text(types, pos, vel, box, order=None, trailing_id=False, fmt="
     """One .lammpstrj frame. box: 3 x (lo, hi)."""
     n = len(types)
     order = list(range(n)) if order is None else order
-    s = f"ITEM: TIMESTEP\n0\nITEM: NUMBER OF ATOMS\n{n}\nITEM: BOX BOUNDS pp pp pp\n"
-    for lo, hi in box:
-        s += f"{fmt.format(float(lo))} {fmt.format(float(hi))}\n"
+    tri = any(len(b) == 3 for b in box)  # triclinic cells: a third column with the tilt factors
+    s = f"ITEM: TIMESTEP\n0\nITEM: NUMBER OF ATOMS\n{n}\nITEM: BOX BOUNDS {'xy xz yz ' if tri else ''}pp pp pp\n"
+    for b in box:
+        s += " ".join(fmt.format(float(x)) for x in b) + "\n"
     s += "ITEM: ATOMS id type x y z vx vy vz" + (" id" if trailing_id else "") + "\n"
     for i in order:
         vals = [fmt.format(float(x)) for x in list(pos[i]) + list(vel[i])]
